@@ -102,7 +102,11 @@ fn gen_triangular(rng: &mut Rng, ring: &str, n: usize, upper: bool) -> (Value, f
                 for _ in 0..(1 + rng.below(3)) {
                     let (mut i, mut j) = (rng.below(n as u64) as usize, rng.below(n as u64) as usize);
                     if i == j { continue; }
-                    if (upper && i > j) || (!upper && i < j) { std::mem::swap(&mut i, &mut j); }
+                    // a stored zero is a zero wherever it sits: half of them go to the *other*
+                    // triangle, where a mathematically triangular matrix may still store one
+                    let want_inside = rng.chance(1, 2);
+                    let inside = (upper && i < j) || (!upper && i > j);
+                    if inside != want_inside { std::mem::swap(&mut i, &mut j); }
                     if entries.iter().any(|e| e[0] == json!(i) && e[1] == json!(j)) { continue; }
                     let v = gen_any(rng, ring, 1);
                     entries.push(json!([i, j, v]));
@@ -184,12 +188,14 @@ fn gen_case_inner(rng: &mut Rng) -> Value {
             json!({ "kind": kind, "ring": ring, "upper": upper, "r": r, "a": { "m": m, "n": n, "entries": entries } })
         }
         _ => {
-            // block-diagonal matrix hidden under random row/column permutations, with zero rows/cols
-            let nb = rng.below(5) as usize;
+            // block-diagonal matrix hidden under random row/column permutations, with zero rows/cols;
+            // one run in six is wide (30-70 columns): size is a tuning knob the code may branch on
+            let wide = rng.chance(1, 3);
+            let nb = if wide { 2 + rng.below(10) as usize } else { rng.below(5) as usize };
             let mut blocks = vec![];
             let (mut m, mut n) = (0usize, 0usize);
             for _ in 0..nb {
-                let (bm, bn) = (1 + rng.below(4) as usize, 1 + rng.below(4) as usize);
+                let (bm, bn) = if wide { (1 + rng.below(8) as usize, 2 + rng.below(12) as usize) } else { (1 + rng.below(4) as usize, 1 + rng.below(4) as usize) };
                 blocks.push((m, n, bm, bn));
                 m += bm;
                 n += bn;
@@ -205,12 +211,25 @@ fn gen_case_inner(rng: &mut Rng) -> Value {
             let mut entries = vec![];
             let stored_zero = rng.chance(1, 4);
             for &(r0, c0, bm, bn) in &blocks {
-                let dens = *rng.pick(&[40u64, 70, 100]);
+                let dens = if wide { *rng.pick(&[0u64, 0, 3, 10, 40]) } else { *rng.pick(&[40u64, 70, 100]) };
+                if wide {
+                    // a spanning chain keeps the block connected however sparse it is
+                    for j in 0..bn {
+                        let i = j * bm / bn.max(1);
+                        let ri = pr[r0 + i.min(bm - 1)];
+                        for jj in [j, j + 1] {
+                            if jj < bn && !entries.iter().any(|e: &Value| e[0] == json!(ri) && e[1] == json!(pc[c0 + jj])) {
+                                entries.push(json!([ri, pc[c0 + jj], gen_entry(rng, ring, true)]));
+                            }
+                        }
+                    }
+                }
                 for i in 0..bm {
                     for j in 0..bn {
                         if rng.below(100) < dens {
                             let v = gen_entry(rng, ring, false);
-                            if !is_zero_val(ring, &v) {
+                            let taken = wide && entries.iter().any(|e| e[0] == json!(pr[r0 + i]) && e[1] == json!(pc[c0 + j]));
+                            if !is_zero_val(ring, &v) && !taken {
                                 entries.push(json!([pr[r0 + i], pc[c0 + j], v]));
                             }
                         }
